@@ -250,3 +250,156 @@ def _add_mode(h):
             for b in range(2 * n + 2):
                 want = s.covs[c, a, b] if (a < 2 * n and b < 2 * n) else (1 if a == b else 0)
                 h.ensure(f"component{c}.cov[{a},{b}]", eqv(o.covs[c, a, b], want), bounded_shape=True)
+
+
+# ---------------------------------------------------------------- measurement-based squeezing, average map (C07: a physical channel)
+@proof(["C07", "C01"], B + ":BosonicModes.mb_squeeze_avg", native="from native.c01_bosonic_replay import replay_mbsq; replay_mbsq(OBLIGATION, I)")
+def _mb_squeeze_avg(h):
+    """modular: phase_shift and apply_channel are replaced by recorders (both are under contract above).  The average map is
+    R(phi/2) o Channel(X, Y) o R(-phi/2) on the target mode with X = diag(e^-|r|, e^|r|) and additive noise
+    Y = (hbar/2) diag((1 - e^-2|r|) e^(-2 r_anc), (e^2|r| - 1)(1 - eta)/eta); the channel must be completely positive for
+    every 0 < eta <= 1: for det X = 1 that is Y >= 0 (both noise terms non-negative) - otherwise the simulator leaves the
+    set of physical states."""
+    n, K, k, _ = _case(h)
+    s = mk(h, n, K)
+    bc = h.module(B)
+    r, phi, r_anc, eta = h.real("r"), h.real("phi"), h.real("r_anc"), h.real("eta_anc")
+    h.require(And(eta > 0, eta <= 1))
+    calls = []
+
+    def phase_shift(self, ang, mode):
+        calls.append(("phase", ang, mode))
+
+    def apply_channel(self, X, Y):
+        calls.append(("channel", X, Y))
+    with h.stubbed(bc.BosonicModes, "phase_shift", phase_shift), h.stubbed(bc.BosonicModes, "apply_channel", apply_channel):
+        out = h.call(s.obj.mb_squeeze_avg, k, r, phi, r_anc, eta)
+    h.ensure("no-exception", out.returned, bounded_shape=True)
+    if not out.returned:
+        return
+    kinds = [c[0] for c in calls]
+    h.ensure("rotate-channel-rotate-back", kinds == ["phase", "channel", "phase"], bounded_shape=True)
+    if kinds != ["phase", "channel", "phase"]:
+        return
+    h.ensure("rotations-on-the-target-mode-and-inverse-of-each-other", calls[0][2] == k and calls[2][2] == k and eqv(calls[0][1] + calls[2][1], 0) is not False, bounded_shape=True)
+    h.ensure("rotations-cancel", eqv(calls[0][1] + calls[2][1], 0), bounded_shape=True)
+    X, Y = calls[1][1], calls[1][2]
+    m = h.eng.math
+    ok = tuple(_np.shape(X)) == (2 * n, 2 * n) and tuple(_np.shape(Y)) == (2 * n, 2 * n)
+    h.ensure("channel-matrices-have-the-register-size", ok, bounded_shape=True)
+    if not ok:
+        return
+    tq = (k, k + n)                                   # (x_k, p_k) in the (x.., p..) order of expandXY
+    for a in range(2 * n):
+        for b in range(2 * n):
+            if a in tq and b in tq and a == b:
+                continue
+            h.ensure(f"frame.X[{a},{b}]", eqv(X[a, b], 1 if a == b else 0), bounded_shape=True)
+            h.ensure(f"frame.Y[{a},{b}]", eqv(Y[a, b], 0), bounded_shape=True)
+    xx, xp, yx, yp = X[k, k], X[k + n, k + n], Y[k, k], Y[k + n, k + n]
+    h.ensure("X-has-unit-determinant", eqv(xx * xp, 1), bounded_shape=True)
+    h.ensure("x-quadrature-attenuated-p-amplified", And(xx > 0, xx <= 1), bounded_shape=True)
+    h.ensure("completely-positive.x-noise-non-negative", yx >= 0, bounded_shape=True)
+    h.ensure("completely-positive.p-noise-non-negative", yp >= 0, bounded_shape=True)
+    h.ensure("ideal-detector-adds-no-p-noise", Implies(eta == 1, eqv(yp, 0)), bounded_shape=True)
+    h.ensure("p-noise-is-(1/x^2-1)(1-eta)/eta-in-vacuum-units", eqv(yp * eta * xx * xx, (1 - xx * xx) * (1 - eta)), bounded_shape=True)
+    h.ensure("x-noise-is-(1-x^2)-times-the-ancilla-variance", eqv(yx, (1 - xx * xx) * m.exp(-2 * r_anc)), bounded_shape=True)
+
+
+# ---------------------------------------------------------------- general-dyne post-selection (C06 / C05): conditioning of every component
+class _NPX:
+    """the module's numpy with exp / sqrt replaced by recorders returning fresh symbols (their arguments are the clauses)"""
+    def __init__(self, real_np, h, K):
+        self._np, self._h, self.K = real_np, h, K
+        self.exp_args, self.sqrt_args, self.sums = [], [], []
+        self.E = _np.array([h.complex(f"E{c}") for c in range(K)], dtype=object)
+        self.D = _np.array([h.real(f"D{c}") for c in range(K)], dtype=object)
+
+    def __getattr__(self, name):
+        return getattr(self._np, name)
+
+    def exp(self, x):
+        self.exp_args.append(x)
+        return self.E.copy()
+
+    def sum(self, x, *a, **k):
+        # the normalisation: named by a fresh symbol (equal to the real sum, non-zero) so that the division is by an atom
+        tot = 0
+        for e in x:
+            tot = tot + SC.lift(e)
+        S = self._h.complex("weight_sum")
+        self._h.require(And(eqv(SC.lift(S), tot), SV(S.re * S.re + S.im * S.im > 0)))
+        self.sums.append((S, [SC.lift(e) for e in x]))
+        return S
+
+    def sqrt(self, x):
+        self.sqrt_args.append(x)
+        for c in range(self.K):
+            self._h.require(And(self.D[c] > 0, eqv(self.D[c] * self.D[c], x[c])))
+        return self.D.copy()
+
+
+@proof(["C06", "C05"], B + ":BosonicModes.post_select_generaldyne", native="from native.c01_bosonic_replay import replay_dyne; replay_dyne(OBLIGATION, I)")
+def _post_select_generaldyne(h):
+    """2 modes, 2 components, either mode measured with a general-dyne covariance sigma (symbolic, symmetric) and outcome v.
+    For EVERY component c (means mu_c possibly complex): with the measured block (m_c, C_c), the rest (a_c, A_c) and the
+    cross block B_c,
+        rest mean  a_c + B_c (C_c + sigma)^-1 (v - m_c),   rest covariance  A_c - B_c (C_c + sigma)^-1 B_c^T,
+        measured mode reset to the vacuum, uncorrelated,
+        weight  proportional to  w_c exp(-1/2 (v - m_c)^T (C_c + sigma)^-1 (v - m_c)) / sqrt(det 2 pi (C_c + sigma))
+    - the quadratic form is BILINEAR (the analytic continuation of the Gaussian density to complex means; no complex
+    conjugate); the reweighted weights are then divided by their sum (that last division is not checked)."""
+    bc = h.module(B)
+    n, K = 2, 2
+    meas = h._reg("measured", h.eng.choose(2, "measured"))
+    s = mk(h, n, K)
+    sig = _np.empty((2, 2), dtype=object)
+    sig[0, 0], sig[1, 1] = h.real("sig_xx"), h.real("sig_pp")
+    sig[0, 1] = sig[1, 0] = h.real("sig_xp")
+    v = _np.array([h.real("v_x"), h.real("v_p")], dtype=object)
+    npx = _NPX(bc.np, h, K)
+    la = bc.np.linalg
+    mq, rq = [2 * meas, 2 * meas + 1], [2 * (1 - meas), 2 * (1 - meas) + 1]
+    # the matrices C_c + sigma must be invertible
+    Cs = [_np.array([[s.covs[c, a, b] + sig[i, j] for j, b in enumerate(mq)] for i, a in enumerate(mq)], dtype=object) for c in range(K)]
+    for c in range(K):
+        h.require(Not(eqv(la.det(Cs[c]), 0)))
+    # unnormalised new weights t_c = w_c E_c / D_c (their sum must not vanish: the code divides by it, see _NPX.sum)
+    t = [SC.lift(s.weights[c]) * SC.lift(npx.E[c]) / SC.lift(npx.D[c]) for c in range(K)]
+    # the final filter `abs(weights) > 0` (components of exactly zero weight are dropped) is taken as "all kept": the modulus
+    # of a symbolic complex number would fork every path and drag square roots into every later obligation
+    with h.stubbed(bc, "np", npx), h.stubbed(bc, "abs", lambda x: _np.ones(_np.shape(x))):
+        out = h.call(s.obj.post_select_generaldyne, sig, [meas], v)
+    h.ensure("no-exception", out.returned, bounded_shape=True)
+    if not out.returned:
+        return
+    o = s.obj
+    if tuple(_np.shape(o.weights)) != (K,):
+        h.cover("a-component-of-zero-weight-was-dropped")
+        return
+    h.ensure("one-exponential-and-one-normalisation-per-component", len(npx.exp_args) == 1 and len(npx.sqrt_args) == 1, bounded_shape=True)
+    if len(npx.exp_args) != 1 or len(npx.sqrt_args) != 1:
+        return
+    two_pi = 2 * _np.pi
+    for c in range(K):
+        Ci = la.inv(Cs[c])
+        dv = [v[i] - s.means[c, mq[i]] for i in range(2)]
+        quad = sum(dv[i] * Ci[i, j] * dv[j] for i in range(2) for j in range(2))
+        h.ensure(f"component{c}.exponent-is-minus-half-the-BILINEAR-form", eqv(SC.lift(npx.exp_args[0][c]), SC.lift(quad) * SV(z3.RealVal("-1/2"))), bounded_shape=True)
+        h.ensure(f"component{c}.normalisation-is-det(2 pi (C + sigma))", eqv(npx.sqrt_args[0][c], la.det(Cs[c]) * two_pi * two_pi), bounded_shape=True)
+        Bc = _np.array([[s.covs[c, a, b] for b in mq] for a in rq], dtype=object)
+        G = [[sum(Bc[i, x] * Ci[x, j] for x in range(2)) for j in range(2)] for i in range(2)]
+        for i, a in enumerate(rq):
+            h.ensure(f"component{c}.rest-mean[{a}]", eqv(SC.lift(o.means[c, a]), SC.lift(s.means[c, a] + sum(G[i][j] * dv[j] for j in range(2)))), bounded_shape=True)
+            for j, b in enumerate(rq):
+                h.ensure(f"component{c}.rest-cov[{a},{b}]", eqv(o.covs[c, a, b], s.covs[c, a, b] - sum(G[i][x] * Bc[j, x] for x in range(2))), bounded_shape=True)
+        for a in mq:
+            h.ensure(f"component{c}.measured-mode-mean-reset[{a}]", eqv(SC.lift(o.means[c, a]), SC.lift(0)), bounded_shape=True)
+            for b in range(2 * n):
+                h.ensure(f"component{c}.measured-mode-reset-to-uncorrelated-vacuum[{a},{b}]", And(eqv(o.covs[c, a, b], 1 if a == b else 0), eqv(o.covs[c, b, a], 1 if a == b else 0)), bounded_shape=True)
+    h.ensure("weights-normalised-by-their-sum", len(npx.sums) == 1, bounded_shape=True)
+    if len(npx.sums) == 1:
+        # the final division `weights /= sum` by a complex number is the one step left unchecked (complex division defeats
+        # both solvers here); what it divides and what it divides by are checked
+        for c in range(K):
+            h.ensure(f"component{c}.reweighted-weight-is-w-exp-over-normalisation", len(npx.sums[0][1]) == K and eqv(npx.sums[0][1][c], t[c]), bounded_shape=True)
